@@ -25,8 +25,8 @@ RULE = (
     "memo-populated flag). Events: every valid dispatch, invalid dispatches, reset, construct "
     "+ subscribe a recorder of 3 kinds (plain, subclass, singleton), construct unsubscribed, "
     "unsubscribe k-th, re-subscribe detached, second construction of a singleton type "
-    "(subscribe True/False), create_or_get_observer for 4 types x 2 conditions, populate the "
-    "memo. Every transition is executed on the real Dispatcher after replaying the state's "
+    "(subscribe True/False), create_or_get_observer for 4 types x 3 conditions (any / never / "
+    "only the last subscribed one). Every transition is executed on the real Dispatcher after replaying the state's "
     "representative event sequence on fresh objects; recorders log inside update()/reset() a "
     "global sequence number and a snapshot of the schedule and of all queries. Oracle: "
     "notifications = model's (once each, subscription order, post-state snapshot), faults "
@@ -181,6 +181,8 @@ class Model:
         for kind in ("H",) + tuple(self.kinds) + (("R",) if "R" not in self.kinds else ()):
             ev.append(("create_or_get", (kind, "any")))
             ev.append(("create_or_get", (kind, "never")))
+            if kind != "H" and sum(1 for kk, _ in self.subs if is_instance_kind(kk, kind)) >= 2:
+                ev.append(("create_or_get", (kind, "last")))
         return ev
 
 
@@ -263,13 +265,21 @@ class World:
             d.subscribe(self.objs[uid])
         elif kind == "create_or_get":
             k, cond = arg
-            condition = (lambda o: True) if cond == "any" else (lambda o: False)
             match = None
             if cond == "any":
+                condition = lambda o: True  # noqa: E731
                 for kk, uu in m.subs:
                     if is_instance_kind(kk, k):
                         match = uu
                         break
+            elif cond == "last":
+                # accepts only the LAST subscribed observer of that kind
+                cands = [uu for kk, uu in m.subs if is_instance_kind(kk, k)]
+                match = cands[-1] if cands else None
+                target = self.objs.get(match)
+                condition = lambda o, target=target: o is target  # noqa: E731
+            else:
+                condition = lambda o: False  # noqa: E731
             must_raise = match is None and k in ("S", "H") and any(kk == k for kk, _ in m.subs)
             n_h = sum(1 for kk, _ in m.subs + m.detached if kk == "H")
             can_create = (
